@@ -622,7 +622,7 @@ func (c *nfsClient) step(rng *rand.Rand, slot int, dirs [][]byte, hostile bool) 
 
 // ---- deterministic probes -------------------------------------------------------
 
-func runNFSProbeCase(r *ev.Run, rc *reach, i int) {
+func runNFSProbeCase(r *ev.Run, rc *reach, i int, progress *atomic.Int64) {
 	rng := r.Rand(14, 5, uint64(i))
 	minor := uint32(i % 2)
 	steps := 60 + rng.IntN(120)
@@ -658,6 +658,7 @@ func runNFSProbeCase(r *ev.Run, rc *reach, i int) {
 		walk(w.env.Root, 0)
 	}
 	w.onCompound = func(minor uint32, res *nfs.Compound4res) {
+		progress.Add(1)
 		fn, st := lastOp(res), statName(res.Status)
 		log = append(log, fmt.Sprintf("v4.%d %s -> %s", minor, fn, st))
 		rc.add(fmt.Sprintf("nfs4%d.%s", minor, fn), st, 1)
@@ -736,7 +737,7 @@ func runNFSProbeCase(r *ev.Run, rc *reach, i int) {
 
 func runNFSProbes(r *ev.Run, rc *reach) {
 	n := r.Pick(160, 3200)
-	parallel(8, n, func(i int) { runNFSProbeCase(r, rc, i) })
+	guardedCases(r, "nfs-probe-case", n, func(i int, progress *atomic.Int64) { runNFSProbeCase(r, rc, i, progress) })
 	r.Floor("probed-after-error-return:nfsv4", 200)
 	r.Floor("nfs-lease-expired", 20)
 }
